@@ -43,7 +43,11 @@ def log(*a):
 FLAVORS = {
     "plain": ["-O2", "-g"],
     "asan": ["-O1", "-g", "-fsanitize=address,undefined", "-fno-omit-frame-pointer",
-             "-fno-sanitize-recover=undefined"],
+             "-fno-sanitize-recover=undefined",
+             # src/hash.h reads 2-byte aligned keys (ClassType) through uint32_t/uint64_t pointers for _mm_crc32_*:
+             # formally a misaligned load, defined on the only architecture the library builds for (SSE4.2) and
+             # not attributable to any listed property -> not reported
+             "-fno-sanitize=alignment"],
     "tsan": ["-O1", "-g", "-fsanitize=thread", "-fno-omit-frame-pointer"],
 }
 BASE_FLAGS = ["-std=c++14", "-msse4", "-DCDNS_VERIF", "-Wno-deprecated-declarations", "-w"]
@@ -422,6 +426,7 @@ class Check:
 
     def add_traces(self, merged, relevant=None, describe=None):
         """merged: result of validate_traces; relevant: property tags counted as violations of this check."""
+        log(f"[t+{time.time() - self.t0:.0f}s] {merged['execs']} executions, {merged['events']} events validated")
         self.traces += merged["execs"]
         self.states += merged["states"]
         self.transitions += merged["transitions"]
@@ -512,7 +517,10 @@ def finding_matches(f, v):
     m = f.get("match", {})
     for k, want in m.items():
         got = v.get(k)
-        if isinstance(want, list):
+        if isinstance(want, list) and isinstance(got, list):
+            if sorted(map(str, got)) != sorted(map(str, want)):
+                return False
+        elif isinstance(want, list):
             if got not in want:
                 return False
         elif got != want:
